@@ -35,13 +35,48 @@ impl<'a> Future for ReadExact<'a> {
     }
 }
 
+/// `read`: whatever has arrived, at most `buf.len()` bytes - and, like a real socket, possibly fewer than are
+/// already buffered (a seeded short read); 0 only at end of stream.
+pub struct Read<'a> {
+    s: &'a mut TcpStream,
+    buf: &'a mut [u8],
+}
+
+impl<'a> Future for Read<'a> {
+    type Output = std::io::Result<usize>;
+    fn poll(mut self: Pin<&mut Self>, cx: &mut Context<'_>) -> Poll<Self::Output> {
+        let me = &mut *self;
+        let mut p = me.s.rx.borrow_mut();
+        if me.buf.is_empty() {
+            return Poll::Ready(Ok(0));
+        }
+        if p.buf.is_empty() {
+            if p.closed {
+                return Poll::Ready(Ok(0));
+            }
+            p.waker = Some(cx.waker().clone());
+            return Poll::Pending;
+        }
+        let avail = p.buf.len().min(me.buf.len());
+        let n = if avail > 1 && crate::sim::chance(0.5) { 1 + crate::sim::below(avail as u64) as usize } else { avail };
+        for i in 0..n {
+            me.buf[i] = p.buf.pop_front().unwrap();
+        }
+        Poll::Ready(Ok(n))
+    }
+}
+
 pub trait AsyncReadExt {
     fn read_exact<'a>(&'a mut self, buf: &'a mut [u8]) -> ReadExact<'a>;
+    fn read<'a>(&'a mut self, buf: &'a mut [u8]) -> Read<'a>;
 }
 
 impl AsyncReadExt for TcpStream {
     fn read_exact<'a>(&'a mut self, buf: &'a mut [u8]) -> ReadExact<'a> {
         ReadExact { s: self, buf, filled: 0 }
+    }
+    fn read<'a>(&'a mut self, buf: &'a mut [u8]) -> Read<'a> {
+        Read { s: self, buf }
     }
 }
 
